@@ -65,18 +65,19 @@ theorem loadAsgs_dangling (T : Tbl) (p : PAsg) (r : List PAsg) (h : T.attr p.att
     loadAsgs T (p :: r) = .error (.notFound .attr p.attr) := by
   simp [loadAsgs, h]
 
-theorem loadBody_dangling_type (T : Tbl) (ty un : Id) (h : findEnt T.types ty = none) :
-    loadBody T 1 (.std ty un) = .error (.notFound .type ty) := by
+theorem loadBody_dangling_type (T : Tbl) (self : Id) (sn : Seen) (ty un : Id) (h : findEnt T.types ty = none) :
+    loadBody T 1 self sn (.std ty un) = .error (.notFound .type ty) := by
   simp [loadBody, h]
 
-theorem loadBody_dangling_unit (T : Tbl) (ty un : Id) (ht : (findEnt T.types ty).isSome = true)
+theorem loadBody_dangling_unit (T : Tbl) (self : Id) (sn : Seen) (ty un : Id)
+    (ht : (findEnt T.types ty).isSome = true)
     (hu : un ≠ "") (h : findEnt T.units un = none) :
-    loadBody T 1 (.std ty un) = .error (.notFound .unit un) := by
+    loadBody T 1 self sn (.std ty un) = .error (.notFound .unit un) := by
   rw [Option.isSome_iff_ne_none] at ht
   simp [loadBody, h, ht, hu]
 
-theorem loadBody_dangling_enum (T : Tbl) (en : Id) (h : findEnt T.enums en = none) :
-    loadBody T 2 (.enm en) = .error (.notFound .enum en) := by
+theorem loadBody_dangling_enum (T : Tbl) (self : Id) (sn : Seen) (en : Id) (h : findEnt T.enums en = none) :
+    loadBody T 2 self sn (.enm en) = .error (.notFound .enum en) := by
   simp [loadBody, h]
 
 theorem loadIface_dangling_node (T : Tbl) (st : St) (p : PIface) (h : T.node p.node = none) :
@@ -92,9 +93,10 @@ theorem loadRecvs_dangling_node (T : Tbl) (mid : Id) (st : St) (acc : List Recv)
     loadRecvs T mid st acc ((node, num) :: r) = .error (.notFound .node node) := by
   simp [loadRecvs, h]
 
-theorem loadTop_no_position (T : Tbl) (refs : List (Id × Nat)) (p : PSig) (r : List PSig) (s : Sig)
-    (hs : loadSig T p = .ok s) (h : lookupLast refs p.id = none) :
-    loadTop T refs (p :: r) = .error (.notFound .position p.id) := by
+theorem loadTop_no_position (T : Tbl) (refs : List (Id × Nat)) (o : Owner) (sn sn' : Seen) (p : PSig)
+    (r : List PSig) (s : Sig)
+    (hs : loadSig T o sn p = .ok (s, sn')) (h : lookupLast refs p.id = none) :
+    loadTop T refs o sn (p :: r) = .error (.notFound .position p.id) := by
   simp [loadTop, hs, h]
 
 /-! ## the multiplexer checks -/
@@ -259,32 +261,37 @@ theorem firstPos_some_mem {ts : List (Nat × Id × Nat)} {id : Id}
   | none => simp [hf] at h
   | some t => exact ⟨t, List.mem_of_find?_eq_some hf, by simpa using List.find?_some hf⟩
 
-theorem loadSigs_ids (T : Tbl) : ∀ (l : List PSig) (ks : List Sig), loadSigs T l = .ok ks →
-    ks.map Sig.id = l.map PSig.id
-  | [], ks, h => by simp only [loadSigs] at h; cases h; rfl
-  | p :: r, ks, h => by
+theorem loadSig_id (T : Tbl) (o : Owner) (sn sn' : Seen) (p : PSig) (s : Sig)
+    (hs : loadSig T o sn p = .ok (s, sn')) : s.id = p.id := by
+  obtain ⟨e, asg, kind, body⟩ := p
+  simp only [loadSig] at hs
+  split at hs
+  · cases hs
+  · split at hs
+    · cases hs
+    · split at hs
+      · cases hs
+      · cases hs; rfl
+
+theorem loadSigs_ids (T : Tbl) (o : Owner) : ∀ (l : List PSig) (sn sn' : Seen) (ks : List Sig),
+    loadSigs T o sn l = .ok (ks, sn') → ks.map Sig.id = l.map PSig.id
+  | [], sn, sn', ks, h => by simp only [loadSigs] at h; cases h; rfl
+  | p :: r, sn, sn', ks, h => by
     simp only [loadSigs] at h
     split at h
     · cases h
-    · rename_i s hs
+    · rename_i s sn1 hs
       split at h
       · cases h
-      · rename_i ss hss
+      · rename_i ss sn2 hss
         cases h
-        have hid : s.id = p.id := by
-          obtain ⟨e, asg, kind, body⟩ := p
-          simp only [loadSig] at hs
-          split at hs
-          · cases hs
-          · split at hs
-            · cases hs
-            · cases hs; rfl
-        simp [hid, loadSigs_ids T r ss hss]
+        simp [loadSig_id T o sn sn1 p s hs, loadSigs_ids T o r sn1 _ ss hss]
 
-theorem loadBody_mux_inv (T : Tbl) (kind gc : Nat) (sigs : List PSig) (fixed : List Id)
+theorem loadBody_mux_inv (T : Tbl) (kind gc : Nat) (self : Id) (sn sn' : Seen) (sigs : List PSig)
+    (fixed : List Id)
     (groups : List (List (Id × Nat))) (b : Body)
-    (h : loadBody T kind (.mux gc sigs fixed groups) = .ok b) :
-    gc ≠ 0 ∧ MuxOK sigs groups ∧ ∃ ks, loadSigs T sigs = .ok ks := by
+    (h : loadBody T kind self sn (.mux gc sigs fixed groups) = .ok (b, sn')) :
+    gc ≠ 0 ∧ MuxOK sigs groups ∧ ∃ ks, loadSigs T (.sig self) sn sigs = .ok (ks, sn') := by
   simp only [loadBody] at h
   split at h
   · cases h
@@ -293,12 +300,16 @@ theorem loadBody_mux_inv (T : Tbl) (kind gc : Nat) (sigs : List PSig) (fixed : L
     · rename_i hgc
       split at h
       · cases h
-      · rename_i ks hks
+      · rename_i ks sn1 hks
         split at h
         · cases h
         · rename_i kids hk
+          have hsn : sn1 = sn' := by
+            injection h with h
+            injection h
+          subst hsn
           obtain ⟨h1, h2⟩ := assembleMux_inv _ _ _ _ _ hk
-          have hids := loadSigs_ids T sigs ks hks
+          have hids := loadSigs_ids T _ sigs _ _ ks hks
           have hmem : ∀ id, (∃ s ∈ dedupLast Sig.id ks, s.id = id) ↔ ∃ s ∈ sigs, s.id = id := by
             intro id
             constructor
